@@ -42,6 +42,22 @@ theorem forIn_of_next {α σ ρ : Type} (f : σ → α → R σ) (body : α → 
     | error e => rfl
     | ok s' => simpa [Except.map, bind, Except.bind] using ih s'
 
+/-- the same when the loop carries the fold's state in another layout (`toSrc`: e.g. the components of the loop-state tuple in the
+    translator's order, whatever that order is) -/
+theorem forIn_of_next_via {α σ σ' ρ : Type} (toSrc : σ → σ') (f : σ → α → R σ) (body : α → σ' → R (PyRt.Ctl σ' ρ))
+    (h : ∀ x s, body x (toSrc s) = (f s x).map (fun s' => PyRt.Ctl.next (toSrc s'))) :
+    ∀ (xs : List α) (s : σ),
+      PyRt.forIn xs (toSrc s) body = (xs.foldlM f s).map (fun s' => PyRt.Done.fell (toSrc s')) := by
+  intro xs
+  induction xs with
+  | nil => intro s; rfl
+  | cons x xs ih =>
+    intro s
+    simp only [PyRt.forIn, h, List.foldlM_cons]
+    cases f s x with
+    | error e => rfl
+    | ok s' => simpa [Except.map, bind, Except.bind] using ih s'
+
 /-- an invariant of the step function is an invariant of a successful `foldlM` -/
 theorem foldlM_inv {α σ : Type} (P : σ → Prop) (f : σ → α → R σ)
     (hf : ∀ s x s', P s → f s x = .ok s' → P s') :
@@ -269,7 +285,11 @@ theorem make_fixes_tie (store : List Res) (prems : List (Key × List Premise)) (
     Gen.Imp.OverhangResolver_make_fixes_imp store prems err = (prems.map (·.2)).foldlM (fixOne err) (store, []) := by
   unfold Gen.Imp.OverhangResolver_make_fixes_imp
   try simp only []
-  rw [forIn_of_next (f := fixOne err)]
+  -- the loop carries `store` and `fixes_made` in the translator's (canonical) order, the model's `fixOne` as `(store, fixes)`:
+  -- whichever of the two orders the generated tuple has, `forIn_of_next_via` relates them
+  first
+    | rw [forIn_of_next_via (fun p => p) (fixOne err) _ ?_ _ (store, [])]
+    | rw [forIn_of_next_via (fun p => (p.2, p.1)) (fixOne err) _ ?_ _ (store, [])]
   · cases List.foldlM (fixOne err) (store, []) (prems.map (·.2)) <;> rfl
   · intro ps s
     obtain ⟨store, fixes⟩ := s
